@@ -2,6 +2,21 @@ pub mod ops;
 
 use ops::{IndirectLocation, JumpCondition, Op, Register8, Register16};
 
+/// A block is never continued into an instruction that cannot be decoded:
+/// an undefined opcode, or one that is cut off by the end of the region
+/// `code` was taken from. Both engines stop in front of it, so that it is only
+/// reported when (and if) execution actually arrives there.
+pub fn can_continue_block(code: &[u8]) -> bool {
+  // no instruction is longer than three bytes
+  let mut first = [0u8; 3];
+  let available = code.len().min(3);
+  first[..available].copy_from_slice(&code[..available]);
+  match decode(&first) {
+    (ops::Op::Invalid(_), _, _) => false,
+    (_, length, _) => length <= code.len(),
+  }
+}
+
 pub fn decode(instructions: &[u8]) -> (Op, usize, usize) {
   match instructions[0] {
     0x00 => (Op::NoOp, 1, 4),
